@@ -1072,6 +1072,174 @@ theorem held_after_final_writeHeader (st : St α) (s : Nat) (hs1 : is1xx s = fal
 
 end
 
+/-! ## the writer edits headers only in `init` (plus `Vary` on 304 and a sniffed `Content-Type`) -/
+
+section
+variable {α : Type}
+
+theorem hdr_rwWriteHeader (st : St α) (s : Nat) {k : Bytes} (hk : k ≠ kVary) :
+    hValues (rwWriteHeader st s).hdr k = hValues st.hdr k := by
+  have hv : hValues (vary304 s { st with statusCode := s }).hdr k = hValues st.hdr k := by
+    unfold vary304; split
+    · exact hValues_add_ne _ _ hk
+    · rfl
+  unfold rwWriteHeader informational connectImmediate
+  split <;> split <;> simp [dsWriteHeader, hv]
+
+theorem hdr_connectDefault (st : St α) {k : Bytes} (hk : k ≠ kVary) :
+    hValues (connectDefault st).hdr k = hValues st.hdr k := by
+  unfold connectDefault; split
+  · exact hdr_rwWriteHeader st 200 hk
+  · rfl
+
+theorem wrote_connectDefault (st : St α) (h : (connectDefault st).wroteHeader = false) : st.wroteHeader = false := by
+  cases hw : st.wroteHeader with
+  | false => rfl
+  | true => rw [committed_connectDefault st hw] at h; rw [hw] at h; cases h
+
+theorem encOpen_connectDefault (st : St α) : (connectDefault st).encOpen = st.encOpen := by
+  unfold connectDefault rwWriteHeader informational connectImmediate vary304
+  split
+  · split <;> split <;> split <;> simp [dsWriteHeader]
+  · rfl
+
+theorem hdr_decide1 (cfg : Cfg α) (st : St α) (p : α) {k : Bytes} (hk : k ≠ kCT) :
+    (hValues (decide1 cfg st p).hdr k = hValues st.hdr k ∧ (decide1 cfg st p).encOpen = st.encOpen) ∨
+      (st.wroteHeader = false ∧ (decide1 cfg st p).encOpen = true) := by
+  have hs : hValues (sniffType cfg st p).hdr k = hValues st.hdr k ∧ (sniffType cfg st p).encOpen = st.encOpen := by
+    unfold sniffType; split
+    · exact ⟨hValues_set_ne _ _ hk, rfl⟩
+    · exact ⟨rfl, rfl⟩
+  unfold decide1
+  by_cases hc : (!st.wroteHeader && decide (cfg.minLen > 0)) = true
+  · simp only [hc, if_true]
+    split
+    · rcases rwInit_spec cfg (sniffType cfg st p) with e | ⟨e, _⟩
+      · rw [e]; exact Or.inl hs
+      · rw [e]; right
+        simp only [Bool.and_eq_true, Bool.not_eq_true'] at hc
+        exact ⟨hc.1, rfl⟩
+    · exact Or.inl ⟨rfl, rfl⟩
+  · simp only [hc]; exact Or.inl ⟨rfl, rfl⟩
+
+theorem hdr_commit_emit (st : St α) (p : α) :
+    (emit (commitHeader st) p).hdr = st.hdr ∧ (emit (commitHeader st) p).encOpen = st.encOpen := by
+  have h1 : (commitHeader st).hdr = st.hdr ∧ (commitHeader st).encOpen = st.encOpen := by
+    unfold commitHeader; split
+    · split <;> simp [dsWriteHeader]
+    · exact ⟨rfl, rfl⟩
+  have h2 : ∀ s : St α, (emit s p).hdr = s.hdr ∧ (emit s p).encOpen = s.encOpen := by
+    intro s; unfold emit; split <;> simp [encWrite, dsWrite, implicitHeader]
+  exact ⟨by rw [(h2 _).1, h1.1], by rw [(h2 _).2, h1.2]⟩
+
+theorem hdr_rwWrite (cfg : Cfg α) (st : St α) (p : α) {k : Bytes} (h1 : k ≠ kVary) (h2 : k ≠ kCT) :
+    (hValues (rwWrite cfg st p).hdr k = hValues st.hdr k ∧ (rwWrite cfg st p).encOpen = st.encOpen) ∨
+      (st.wroteHeader = false ∧ (rwWrite cfg st p).encOpen = true) := by
+  unfold rwWrite
+  split
+  · exact Or.inl ⟨rfl, rfl⟩
+  · obtain ⟨e1, e2⟩ := hdr_commit_emit (decide1 cfg (connectDefault st) p) p
+    rw [e1, e2]
+    rcases hdr_decide1 cfg (connectDefault st) p h2 with ⟨a, b⟩ | ⟨a, b⟩
+    · exact Or.inl ⟨by rw [a, hdr_connectDefault st h1], by rw [b, encOpen_connectDefault]⟩
+    · exact Or.inr ⟨wrote_connectDefault st a, b⟩
+
+theorem hdr_sniffLoop (cfg : Cfg α) {k : Bytes} (h1 : k ≠ kVary) (h2 : k ≠ kCT) :
+    ∀ (chunks : List α) (n : Nat) (st : St α), (∀ c ∈ chunks, (cfg.size c == 0) = false) →
+      (hValues (sniffLoop cfg chunks n st).1.hdr k = hValues st.hdr k ∧
+          (sniffLoop cfg chunks n st).1.encOpen = st.encOpen) ∨
+        (st.wroteHeader = false ∧ (sniffLoop cfg chunks n st).1.encOpen = true)
+  | [], n, st, _ => by simp [sniffLoop]
+  | c :: cs, n, st, hne => by
+    unfold sniffLoop
+    by_cases hn : n = 0
+    · simp [hn]
+    · simp only [hn, if_false]
+      have hw1 : ({ rwWrite cfg st c with unreal := st.unreal || decide (cfg.size c > n) } : St α).wroteHeader = true :=
+        rwWrite_wrote cfg st c (hne c List.mem_cons_self)
+      rcases hdr_sniffLoop cfg h1 h2 cs (n - cfg.size c)
+          { rwWrite cfg st c with unreal := st.unreal || decide (cfg.size c > n) }
+          (fun x hx => hne x (List.mem_cons_of_mem _ hx)) with ⟨a, b⟩ | ⟨a, _⟩
+      · rcases hdr_rwWrite cfg st c h1 h2 with ⟨a', b'⟩ | ⟨a', b'⟩
+        · exact Or.inl ⟨by rw [a]; exact a', by rw [b]; exact b'⟩
+        · exact Or.inr ⟨a', by rw [b]; exact b'⟩
+      · rw [hw1] at a; cases a
+
+theorem hdr_foldl_encWrite : ∀ (cs : List α) (st : St α), (cs.foldl encWrite st).hdr = st.hdr
+  | [], _ => rfl
+  | c :: cs, st => by rw [List.foldl_cons, hdr_foldl_encWrite cs]; rfl
+
+theorem hdr_foldl_dsWrite : ∀ (cs : List α) (st : St α), (cs.foldl dsWrite st).hdr = st.hdr
+  | [], _ => rfl
+  | c :: cs, st => by rw [List.foldl_cons, hdr_foldl_dsWrite cs]; rfl
+
+theorem hdr_copyRest (st : St α) (cs : List α) :
+    (copyRest st cs).hdr = st.hdr ∧ (copyRest st cs).encOpen = st.encOpen := by
+  unfold copyRest; split
+  · exact ⟨hdr_foldl_encWrite _ _, (committed_foldl_encWrite _ _).2⟩
+  · exact ⟨hdr_foldl_dsWrite _ _, (committed_foldl_dsWrite _ _).2⟩
+
+theorem hdr_step (cfg : Cfg α) (st : St α) (op : Op α) {k : Bytes} (h1 : k ≠ kVary) (h2 : k ≠ kCT) :
+    hValues (step cfg st op).hdr k = hValues (hdrEffect op st.hdr) k ∨
+      (st.wroteHeader = false ∧ (step cfg st op).encOpen = true) := by
+  cases op with
+  | writeHeader s => exact Or.inl (hdr_rwWriteHeader st s h1)
+  | write p =>
+    rcases hdr_rwWrite cfg st p h1 h2 with ⟨a, _⟩ | h
+    · exact Or.inl a
+    · exact Or.inr h
+  | flush =>
+    left
+    simp only [step, rwFlush, hdrEffect]
+    split
+    · exact hdr_connectDefault st h1
+    · unfold flushThrough
+      split <;> simp [dsFlush, encFlush, implicitHeader, hdr_connectDefault st h1]
+  | readFrom cs =>
+    simp only [step, rwReadFrom, hdrEffect]
+    split
+    · unfold afterSniff
+      rcases hdr_sniffLoop cfg h1 h2 (nonEmpty cfg cs) 512 st (nonEmpty_size cfg cs) with ⟨a, b⟩ | ⟨a, b⟩
+      · left; split
+        · rw [(hdr_copyRest _ _).1]; exact a
+        · exact a
+      · right; refine ⟨a, ?_⟩; split
+        · rw [(hdr_copyRest _ _).2]; exact b
+        · exact b
+    · left; rw [(hdr_copyRest _ _).1]
+  | hset k' v => exact Or.inl rfl
+  | hadd k' v => exact Or.inl rfl
+  | hdel k' => exact Or.inl rfl
+
+theorem hdr_rwClose (cfg : Cfg α) (st : St α) :
+    (rwClose cfg st).hdr = st.hdr ∨ (st.wroteHeader = false ∧ (rwClose cfg st).log.head? = some Ev.ec) := by
+  have hcm : ∀ s : St α, (commitHeader s).hdr = s.hdr ∧ (commitHeader s).encOpen = s.encOpen := by
+    intro s; unfold commitHeader; split
+    · split <;> simp [dsWriteHeader]
+    · exact ⟨rfl, rfl⟩
+  have hec : ∀ s : St α, (encClose s).hdr = s.hdr := fun s => rfl
+  unfold rwClose closeHeader
+  cases hw : st.wroteHeader with
+  | true =>
+    left
+    simp only [Bool.not_true, Bool.false_eq_true, if_false]
+    split <;> simp [encClose, implicitHeader]
+  | false =>
+    simp only [Bool.not_false, if_true]
+    by_cases ho : (commitHeader (if clGtMin cfg st.hdr = true then rwInit cfg st else st)).encOpen = true
+    · right; simp [ho, encClose, implicitHeader]
+    · left
+      rw [if_neg ho, (hcm _).1]
+      rw [(hcm _).2] at ho
+      by_cases hc : clGtMin cfg st.hdr = true
+      · rw [if_pos hc] at ho ⊢
+        rcases rwInit_spec cfg st with e | ⟨e, _⟩
+        · rw [e]
+        · rw [e] at ho; simp at ho
+      · rw [if_neg hc]
+
+end
+
 /-! ## negotiation -/
 
 theorem mem_insertRev (x y : Pref) : ∀ (l : List Pref), y ∈ insertRev x l ↔ y = x ∨ y ∈ l
@@ -1117,6 +1285,57 @@ theorem mem_acceptedEncodings {ae : Bytes} {ws : Bool} {prefer : List Bytes} {c 
         refine ⟨rfl, Nat.pos_of_ne_zero hq, fun hw => ?_⟩
         simp [hw] at hws
         exact hws
+
+/-! ### `sort.Slice` (insertion sort) sorts by (q, server preference) -/
+
+theorem prefGe_iff (a b : Pref) : PrefGe a b ↔ prefLess b a = false := by
+  unfold PrefGe prefLess
+  by_cases h : b.q = a.q
+  · simp [h]
+  · simp [h]; omega
+
+theorem prefGe_of_less {a b : Pref} (h : prefLess a b = true) : PrefGe a b := by
+  unfold PrefGe; unfold prefLess at h
+  by_cases hq : a.q = b.q
+  · simp [hq] at h ⊢; omega
+  · simp [hq] at h; exact Or.inl h
+
+theorem prefGe_trans {a b c : Pref} (h1 : PrefGe a b) (h2 : PrefGe b c) : PrefGe a c := by
+  unfold PrefGe at *; omega
+
+theorem prefGe_refl (a : Pref) : PrefGe a a := Or.inr ⟨rfl, Int.le_refl _⟩
+
+theorem pairwise_insertRev (x : Pref) : ∀ (l : List Pref), l.Pairwise (fun a b => PrefGe b a) →
+    (insertRev x l).Pairwise (fun a b => PrefGe b a)
+  | [], _ => by simp [insertRev]
+  | y :: ys, h => by
+    rw [List.pairwise_cons] at h
+    unfold insertRev
+    by_cases hl : prefLess x y = true
+    · simp only [hl, if_true]
+      rw [List.pairwise_cons]
+      refine ⟨fun z hz => ?_, pairwise_insertRev x ys h.2⟩
+      rcases (mem_insertRev x z ys).mp hz with rfl | hz
+      · exact prefGe_of_less hl
+      · exact h.1 z hz
+    · have hyx : PrefGe y x := (prefGe_iff y x).mpr (by simpa using hl)
+      rw [if_neg hl, List.pairwise_cons]
+      refine ⟨fun z hz => ?_, List.pairwise_cons.mpr h⟩
+      rcases List.mem_cons.mp hz with rfl | hz
+      · exact hyx
+      · exact prefGe_trans (h.1 z hz) hyx
+
+theorem pairwise_foldl_insertRev : ∀ (l acc : List Pref), acc.Pairwise (fun a b => PrefGe b a) →
+    (l.foldl (fun acc x => insertRev x acc) acc).Pairwise (fun a b => PrefGe b a)
+  | [], _, h => h
+  | x :: xs, acc, h => by
+    rw [List.foldl_cons]; exact pairwise_foldl_insertRev xs _ (pairwise_insertRev x acc h)
+
+/-- the order `AcceptedEncodings` returns: every earlier entry is at least as preferred as every later one -/
+theorem goSort_sorted (l : List Pref) : (goSort l).Pairwise PrefGe := by
+  unfold goSort
+  rw [List.pairwise_reverse]
+  exact pairwise_foldl_insertRev l [] List.Pairwise.nil
 
 /-! ## entity tags -/
 
